@@ -81,6 +81,14 @@ FAMILIES = {
     "chain_or_eqv": lambda n: _prog(["l = " + " .or. ".join("l%d .eqv. m%d" % (i, i) for i in range(n))]),
     "chain_defined_op": lambda n: _prog(["l = " + " .myop. ".join("l%d" % i for i in range(n))]),
     "chain_unary_not": lambda n: _prog(["l = " + ".not. (" * n + "a" + ")" * n]),
+    "nested_unary_minus": lambda n: _prog(["x = " + "-(" * n + "a" + ")" * n]),
+    "nested_unary_minus_mult": lambda n: _prog(["x = " + "(-a * " * n + "b" + ")" * n]),
+    "nested_unary_plus_sum": lambda n: _prog(["x = " + "(+a + " * n + "b" + ")" * n]),
+    "nested_unary_minus_paren_first": lambda n: _prog(["x = " + "(-(" * n + "a" + "))" * n]),
+    "nested_defined_unary": lambda n: _prog(["x = " + ".inv. (" * n + "a" + ")" * n]),
+    "nested_power_right": lambda n: _prog(["x = " + "a ** (" * n + "b" + ")" * n]),
+    "nested_concat": lambda n: _prog(["c = " + "'s' // (" * n + "t" + ")" * n]),
+    "nested_relational_and": lambda n: _prog(["l = " + "(a > 1 .and. " * n + "l0" + ")" * n]),
     "array_constructor_nest": lambda n: _prog(["x = " + "(/ " * n + "1" + " /)" * n]),
     "component_chain": lambda n: _prog(["x = " + "%".join("c%d(i)" % i for i in range(n))]),
     "format_groups": lambda n: _prog(["10 format(" + "2(" * n + "i2" + ")" * n + ")"]),
@@ -102,6 +110,11 @@ KINDS = {
 INNER = ["x = 1", "call sub(a, b)", "x = f(a) + (b * c)", "if (a) x = 1", "print *, 'a', x", "10001 continue"]
 
 
+# every wrapper yields a primary (it is parenthesised itself), so any composition is standard-conforming
+EXPR_WRAPS = ["(-(%s))", "(-%s)", "((%s))", "(%s + b)", "(a * %s)", "(.inv. %s)", "(.not. %s)", "[%s]", "(/ %s /)",
+              "(%s ** 2)", "(s // %s)", "(%s .and. l)", "(a == %s)", "(+%s - 1)", "(-a * %s)", "(1.0 * (%s))",
+              "(-(-%s))" if False else "(- %s + 1)"]
+
 SIB_KINDS = {
     "nonblock_do": ["do %(l)d i = 1, 2", "%(l)d x%(i)d = i"],
     "label_do": ["do %(l)d i = 1, 2", "x = i", "%(l)d continue"],
@@ -115,6 +128,11 @@ SIB_KINDS = {
 
 
 def family_source(case, n):
+    if case["family"] == "generated_expr":
+        e = case["innermost"]
+        for i in range(n):
+            e = case["recipe"][i % len(case["recipe"])] % e
+        return _prog([case["stmt"] % e])
     if case["family"] == "generated_siblings":
         lines = []
         for i in range(n):
@@ -161,6 +179,11 @@ def exhaustive(tier, flags):
 
 def build(rnd, tier, flags):
     r = gen.R(rnd)
+    if r.chance(35):
+        recipe = [r.pick(EXPR_WRAPS) for _ in range(r.n(1, 3))]
+        return {"family": "generated_expr", "recipe": recipe, "innermost": r.pick(["a", "arr(i)", "1.0e-3", "x%y"]),
+                "stmt": r.pick(["x = %s", "if (l) x = %s", "call sub(%s, 1)", "print *, %s", "x = arr(%s)"]),
+                "n": r.pick(sizes(tier)), "std": r.pick(["f2003", "f2008"])}
     if r.chance(50):
         ks = sorted(SIB_KINDS)
         recipe = []
@@ -210,7 +233,8 @@ def shard_extra():
 def evaluate(case):
     n = case["n"]
     fam = case["family"]
-    name = fam if not fam.startswith("generated") else ("gen:" if fam == "generated" else "sib:") + "-".join(case["recipe"])
+    name = fam if not fam.startswith("generated") else {"generated": "gen:", "generated_siblings": "sib:",
+                                                         "generated_expr": "expr:"}[fam] + "-".join(case["recipe"])
     labels = ["family=" + (fam if not fam.startswith("generated") else fam), "n=%d" % n, "std=" + case["std"]]
     s1, c1 = count(family_source(case, n), case["std"])
     s2, c2 = count(family_source(case, 2 * n), case["std"])
